@@ -26,9 +26,9 @@ func init() {
 }
 
 type c07Witness struct {
-	App    string   `json:"app"`
-	Cfg    int      `json:"config_variant"`
-	Inputs qstrs    `json:"inputs"`
+	App    string `json:"app"`
+	Cfg    int    `json:"config_variant"`
+	Inputs qstrs  `json:"inputs"`
 }
 
 var c07Junk = []string{"", "zz", strings.Repeat("a", 256), "a\xff\xfe"}
